@@ -7,8 +7,7 @@ _FUNCS = ("mapped function enumerated from {x+1 (stateless), running sum (State)
           "(re-emits one cycle after every tick from its own NodeScheduler), x+b with a broadcast argument b that ticks in enumerated cycles, "
           "late (silent on its first tick: live key without valid output), sampler (PASSIVE element input, timer armed in the node's start hook: the child is not due in the cycle its key appears, samples one and two cycles later)}; every element / broadcast value an unconstrained symbolic int64; "
           "checked after every engine cycle plus one trailing cycle for pending wake-ups")
-_OUT = ("map_ call-shape normalisation in front of wire_map (operator front door: keyword binding, __keys__ inference by union); several multiplexed "
-        "dictionaries / explicit __keys__ (the union operator is not linkable); nested map inside map; mesh_; tsl_map_node (wire_map_tsl); REF-shaped "
+_OUT = ("map_ call-shape normalisation in front of wire_map (operator front door: keyword binding, __keys__ inference by union: the union operator is not linkable - C10_map2 passes an explicit keys port); nested map inside map; mesh_; tsl_map_node (wire_map_tsl); REF-shaped "
         "child outputs; children that throw (C15) ; error-capturing map (map_node_with_error_capture); re-pointed (REF) sources; pause/resume")
 # configuration tuples {NKEYS, BULK, NCYC, EXTRA_OPS, FMASK}; one binary, configuration and mapped function enumerated first.
 # FMASK: bit set of mapped functions (1 inc, 2 running sum, 4 key-consuming, 8 self-scheduling, 16 broadcast arg, 32 late, 64 sampler)
@@ -27,6 +26,19 @@ reg("C10",
     outside=_OUT + "; more keys / cycles",
     assumptions=["erase+set of a live key within one engine cycle is netted by the source dictionary (documented slot protocol), so the map sees an update "
                  "of a key that never left and the instance continues; 'removed and added again' is exercised across cycles"],
+    )
+
+reg("C10",
+    name="C10_map2", src="harness/C10_map2.cpp", anchor_files=_ANCH,
+    quick=dict(defs=dict(NKEYS=2, NCYC=3), symx=dict(shards=16, **{"max-wall": 900, "query-timeout-ms": 120000})),
+    thorough=dict(defs=dict(NKEYS=2, NCYC=4), symx=dict(shards=16, **{"max-wall": 3000, "shard-depth": 8, "query-timeout-ms": 120000})),
+    reach=["end", "key_left_one_dictionary_keyset_unchanged", "remaining_input_ticks_after_element_left", "element_returned_to_dictionary",
+           "key_joined_keyset_with_held_elements", "key_in_only_one_dictionary", "key_left_keyset", "key_rejoined_keyset"],
+    bounds="map_(add, A, B, __keys__=K): TWO multiplexed TSD<int,TS<int>> sources with differing key sets and an explicit scripted TSS<int> key set; NCYC "
+           "cycles; key 0: per cycle A {nothing, set, erase} x B {nothing, set, erase} x K {nothing, toggle membership} (all combinations); keys 1..NKEYS-1: "
+           "{nothing, all-in / all-out, update A}; element values unconstrained symbolic int64; model: instance per key of K, add(a,b) writes a+b when an "
+           "input ticks (or on creation) and both elements are present, stays silent after an element left until it returns",
+    outside=_OUT,
     )
 
 META = dict(
